@@ -1,6 +1,7 @@
 package main
 
 import (
+	"strconv"
 	"sort"
 	"fmt"
 	"go/constant"
@@ -486,9 +487,20 @@ func runC11(p *Prog, l *Ledger) {
 					c, isC := strip(r.Y, false).(*ssa.Const)
 					return ok && sameField(fr, cfgOrd) && r.Op == token.EQL && isC && c.Value != nil && c.Value.Kind() == constant.String && constant.StringVal(c.Value) == ""
 				})
-				n, isC := constName(st.Val, ordNames)
+				n, isC := constName(pa.Resolve(st.Val, step), ordNames)
 				if emptyChecked && isC && strings.HasSuffix(n, "LIFO") {
 					good = true
+				} else if isC && c11SelectedByNormalised(p, pa, step, n, st.Val, cfgOrd, ordNames) {
+					// a constant chosen by comparing the normalised configured value with the constants: the like-named one
+					// where it compared equal, LIFO where it equalled no other (which covers the empty value: the default)
+					if strings.HasSuffix(n, "LIFO") {
+						good = true
+					}
+				} else if c11NormalisedConfig(p, pa, st.Val, step, cfgOrd, ordNames) {
+					// the configured ordering put back in canonical spelling: every ordering constant is a fixed point of the
+					// normalisation, so a configured FIFO / LIFO is stored as itself
+				} else if k, isK := strip(pa.Resolve(st.Val, step), false).(*ssa.Const); isK && k.Value != nil && k.Value.Kind() == constant.String && constant.StringVal(k.Value) == "" {
+					// an unrecognised value is cleared ("not set"); what replaces it is checked where it is stored
 				} else {
 					wrong = true
 					return false
@@ -953,4 +965,95 @@ func c11ReturnsQueueLimiter(f *ssa.Function, backlog *types.Named) bool {
 		return false
 	}
 	return owns(f.Signature.Results().At(0).Type(), 0)
+}
+
+// c11NormalisedConfig: the value is the configuration's own ordering field passed through string normalisers
+// (strings.TrimSpace, strings.ToLower) of which every ordering constant is a fixed point.
+func c11NormalisedConfig(p *Prog, pa *Path, val ssa.Value, step int, cfgOrd FieldRef, ordNames map[string]string) bool {
+	v := strip(pa.Resolve(val, step), false)
+	var fns []string
+	for i := 0; i < 8; i++ {
+		switch x := v.(type) {
+		case *ssa.Convert:
+			v = strip(pa.Resolve(x.X, step), false)
+			continue
+		case *ssa.ChangeType:
+			v = strip(pa.Resolve(x.X, step), false)
+			continue
+		case *ssa.Call:
+			c := p.CallOf(x)
+			if c != nil && len(c.Args) == 1 && (c.Name == "strings.ToLower" || c.Name == "strings.TrimSpace") {
+				fns = append(fns, c.Name)
+				v = strip(pa.Resolve(c.Args[0], step), false)
+				continue
+			}
+		}
+		break
+	}
+	fr, _, ok := loadedField(v)
+	if !ok || !sameField(fr, cfgOrd) || len(fns) == 0 {
+		return false
+	}
+	for k := range ordNames {
+		sv, err := strconv.Unquote(k)
+		if err != nil {
+			return false
+		}
+		out := sv
+		for i := len(fns) - 1; i >= 0; i-- {
+			switch fns[i] {
+			case "strings.ToLower":
+				out = strings.ToLower(out)
+			case "strings.TrimSpace":
+				out = strings.TrimSpace(out)
+			}
+		}
+		if out != sv {
+			return false
+		}
+	}
+	return true
+}
+
+// c11SelectedByNormalised: the constant stored (named name) was selected by comparing the normalised configured
+// ordering with the ordering constants: the path established normalised == this constant, or - for LIFO, the default -
+// normalised != every other ordering constant.
+func c11SelectedByNormalised(p *Prog, pa *Path, step int, name string, val ssa.Value, cfgOrd FieldRef, ordNames map[string]string) bool {
+	k, ok := strip(pa.Resolve(val, step), false).(*ssa.Const)
+	if !ok || k.Value == nil {
+		return false
+	}
+	mine := k.Value.ExactString()
+	rels := pa.Rels(step)
+	has := func(op token.Token, cv string) bool {
+		for _, r := range rels {
+			for _, rr := range []Rel{r, {X: r.Y, Y: r.X, Op: r.Op}} {
+				c, isC := strip(rr.Y, false).(*ssa.Const)
+				if rr.Op != op || !isC || c.Value == nil || c.Value.ExactString() != cv {
+					continue
+				}
+				if c11NormalisedConfig(p, pa, rr.X, step, cfgOrd, ordNames) {
+					return true
+				}
+			}
+		}
+		return false
+	}
+	if has(token.EQL, mine) {
+		return true
+	}
+	if !strings.HasSuffix(name, "LIFO") {
+		return false
+	}
+	n := 0
+	for other := range ordNames {
+		if other == mine {
+			continue
+		}
+		n++
+		if !has(token.NEQ, other) {
+			return false
+		}
+	}
+	return n > 0
 }
